@@ -237,12 +237,13 @@ theorem inArray_sound (fl : Flags) (N : Node) (hg : InArrayOK c fl N) (st : St) 
 
 /-! ### const_range.go -/
 
-/-- guard of the const_range pass: Go `int` bounds whose distance does not overflow; with the code's
-    signed accounting of OpRange (C06) only non-descending ranges (a descending range *lowers* the
-    unoptimised counter) -/
-def ConstRangeOK (c : SCfg) : Node → Prop
+/-- guard of the const_range pass: Go `int` bounds; as long as the code computes the size before it compares
+    the bounds (`constRangeNoOverflow = false`) the distance must not overflow; with the code's signed
+    accounting of OpRange (C06) only non-descending ranges (a descending range *lowers* the unoptimised counter) -/
+def ConstRangeOK (c : SCfg) (fl : Flags) : Node → Prop
   | .binary _ op (.int ma lo) (.int mb hi) =>
-    op = ".." → IntLitOK ma lo ∧ IntLitOK mb hi ∧ inRange .int (hi - lo + 1) ∧ (c.rangeSizeSigned = true → lo ≤ hi + 1)
+    op = ".." → IntLitOK ma lo ∧ IntLitOK mb hi ∧ (fl.constRangeNoOverflow = false → inRange .int (hi - lo + 1)) ∧
+      (c.rangeSizeSigned = true → lo ≤ hi + 1)
   | _ => True
 
 theorem toIntR_int {n : Int} (h : inRange .int n) : toIntR (.int .int n) = .ok n := by
@@ -270,7 +271,8 @@ theorem rangeVals_eq (lo hi : Int) (hlo : inRange .int lo) (hhi : inRange .int h
     omega
   rw [wrap_of_inRange this]
 
-theorem constRange_sound (N : Node) (hg : ConstRangeOK c N) (st : St) : Sim c (constRangeRule N st).1 N := by
+theorem constRange_sound (fl : Flags) (N : Node) (hg : ConstRangeOK c fl N) (st : St) :
+    Sim c (constRangeRule fl N st).1 N := by
   unfold constRangeRule
   split
   · rename_i m op ma lo mb hi
@@ -280,7 +282,6 @@ theorem constRange_sound (N : Node) (hg : ConstRangeOK c N) (st : St) : Sim c (c
       have hop' : op = ".." := by simpa using hop
       subst hop'
       obtain ⟨ha, hb, hsz, hsg⟩ := hg rfl
-      simp only [wrap_of_inRange hsz]
       have mk : ∀ (vals : List Val), vals = rangeElems lo hi → 0 ≤ rangeCounted c lo hi →
           Sim c (patch (.binary m ".." (.int ma lo) (.int mb hi)) (.const {} (.arr (.num .int) vals)))
             (.binary m ".." (.int ma lo) (.int mb hi)) := by
@@ -290,22 +291,48 @@ theorem constRange_sound (N : Node) (hg : ConstRangeOK c N) (st : St) : Sim c (c
         simp only [patch, Node.withMeta, Node.getMeta]
         rw [eval]
         exact RelM.skip_allocBefore _ _ _ hc (RelM.pure _)
-      split
-      · rename_i hlt
-        refine mk [] ?_ ?_
-        · simp only [rangeElems, show hi < lo from by omega, if_true]
-        · simp only [rangeCounted]
+      have hcnt_desc : hi < lo → 0 ≤ rangeCounted c lo hi := by
+        intro h
+        simp only [rangeCounted]
+        split
+        · rename_i hs; have := hsg hs; omega
+        · split <;> omega
+      have hcnt_asc : lo ≤ hi → 0 ≤ rangeCounted c lo hi := by
+        intro h
+        simp only [rangeCounted]
+        split
+        · omega
+        · split <;> omega
+      have hlo := ha.2
+      have hhi := hb.2
+      simp only [inRange, Kind.isSigned, Kind.bits, if_true] at hlo hhi
+      cases hfl : fl.constRangeNoOverflow with
+      | true =>
+        simp only [if_true]
+        split
+        · rename_i hlt
+          exact mk [] (by simp only [rangeElems, hlt, if_true]) (hcnt_desc hlt)
+        · rename_i hge
           split
-          · rename_i hs; have := hsg hs; omega
-          · split <;> omega
-      · split
-        · exact sim_refl c _
-        · rename_i hge _
-          refine mk _ (rangeVals_eq lo hi ha.2 hb.2 (by omega)) ?_
-          simp only [rangeCounted]
-          split
-          · omega
-          · split <;> omega
+          · exact sim_refl c _
+          · rename_i hsz'
+            -- the wrapped size is in [1, 1e6]: the true size did not overflow
+            have hw : wrap .int (hi - lo + 1) = hi - lo + 1 := by
+              simp only [Bool.or_eq_true, decide_eq_true_eq, not_or, Int.not_lt] at hsz'
+              have h1 := hsz'.1
+              simp only [wrap, Kind.isSigned, Kind.bits, if_true] at h1 ⊢
+              omega
+            rw [hw]
+            exact mk _ (rangeVals_eq lo hi ha.2 hb.2 (by omega)) (hcnt_asc (by omega))
+      | false =>
+        simp only [Bool.false_eq_true, if_false, wrap_of_inRange (hsz hfl)]
+        split
+        · rename_i hlt
+          have : hi < lo := by omega
+          exact mk [] (by simp only [rangeElems, this, if_true]) (hcnt_desc this)
+        · split
+          · exact sim_refl c _
+          · exact mk _ (rangeVals_eq lo hi ha.2 hb.2 (by omega)) (hcnt_asc (by omega))
     · exact sim_refl c _
   · exact sim_refl c _
 
